@@ -41,6 +41,20 @@ TCancel == Line.e = "cancel" /\ Cancel(Line.id)
 TPeerMax == Line.e = "peermax" /\ IsT(Line.ty) /\ Line.v >= 0 /\ PeerMaxStreams(Line.ty, Line.v)
 TClose  == Line.e = "close" /\ ConnClosed
 
+\* unit level: localStreamLimits.wasOpened(num), as called for a frame that names a stream of
+\* ours which is no longer in the conn's map.  It only answers; the limits do not move.
+TLateU ==
+    /\ Line.e = "lateframe" /\ IsT(Line.ty) /\ Line.num >= 0
+    /\ closed \/ (Line.was = (Line.num < lopened[Line.ty]))
+    /\ UNCHANGED vars
+
+\* conn level: the peer sent a frame (STOP_SENDING, MAX_STREAM_DATA, RESET_STREAM, STREAM
+\* retransmission) for a stream we opened and that is finished; the connection stays up
+TLateC ==
+    /\ Line.e = "clateframe" /\ IsT(Line.ty)
+    /\ LateFrame(Line.ty, Line.num)
+    /\ Line.outcome = "ok"
+
 \* after the driver has stepped to quiescence: the calls still blocked are exactly the
 \* pending ones, and none of them could proceed
 TQuiesce ==
@@ -91,7 +105,7 @@ TPeerDoneC ==
 TNext ==
     /\ l <= Meta.ends[cur]
     /\ l' = l + 1 /\ cur' = cur
-    /\ \/ TStart \/ TCall \/ TRet \/ TRetErr \/ TCancel \/ TPeerMax \/ TClose \/ TQuiesce
+    /\ \/ TStart \/ TCall \/ TRet \/ TRetErr \/ TCancel \/ TPeerMax \/ TClose \/ TQuiesce \/ TLateU \/ TLateC
        \/ TPeerOpenU \/ TPeerDoneU \/ TSendMax
        \/ TPeerOpenC \/ TSendMaxC \/ TPeerDoneC
 
